@@ -568,6 +568,114 @@ func (e *specEnv) fieldExpr(n *EField) sv {
 	return sv{}
 }
 
+// keysOfLValue maps a modifies expression to the heap keys it may change.
+func (e *specEnv) keysOfLValue(x Expr) (keys []string, ok bool) {
+	defer func() {
+		if r := recover(); r != nil {
+			if _, is := r.(specErr); is {
+				ok = false
+				return
+			}
+			if _, is := r.(unsupported); is {
+				ok = false
+				return
+			}
+			panic(r)
+		}
+	}()
+	u := e.u
+	// whole-value forms
+	if v, err := e.anyExpr(x, nil); err == nil && v.typ != nil {
+		switch tt := v.typ.Underlying().(type) {
+		case *types.Map:
+			return []string{u.keyMapDom(tt), u.keyMapVal(tt), u.keyMapLen()}, true
+		case *types.Slice:
+			if _, isIdx := x.(*EIndex); !isIdx {
+				if _, isField := x.(*EField); !isField {
+					return []string{u.keyM(tt.Elem())}, true
+				}
+			}
+		}
+	}
+	// location forms
+	if _, isIdx := x.(*EIndex); !isIdx {
+		if p := e.lvalueSafe(x); p != nil {
+			switch p.kind {
+			case pHeapStruct:
+				if len(p.path) > 0 && p.path[0].field >= 0 {
+					return []string{u.keyField(p.typ, p.path[0].field)}, true
+				}
+			case pHeapCell:
+				return []string{u.keyCell(p.typ)}, true
+			case pLocal, pGlobal:
+				return []string{p.cell}, true
+			case pSliceElem, pArray:
+				return []string{u.keyM(p.typ)}, true
+			}
+		}
+	}
+	if k, ok := e.keyOfLValue(x); ok {
+		return []string{k}, true
+	}
+	return nil, false
+}
+
+// refOfLValue: the object reference whose state a modifies expression names (map, slice, *T, x.f)
+func (e *specEnv) refOfLValue(x Expr) (ref string, ok bool) {
+	defer func() {
+		if r := recover(); r != nil {
+			if _, is := r.(specErr); is {
+				ok = false
+				return
+			}
+			if _, is := r.(unsupported); is {
+				ok = false
+				return
+			}
+			panic(r)
+		}
+	}()
+	if v, err := e.anyExpr(x, nil); err == nil && v.typ != nil {
+		switch v.typ.Underlying().(type) {
+		case *types.Map:
+			return v.t, v.t != ""
+		case *types.Slice:
+			if _, isIdx := x.(*EIndex); !isIdx {
+				if _, isField := x.(*EField); !isField {
+					return "(s_ref " + v.t + ")", v.t != ""
+				}
+			}
+		}
+	}
+	if _, isIdx := x.(*EIndex); isIdx {
+		return "", false
+	}
+	if p := e.lvalueSafe(x); p != nil {
+		switch p.kind {
+		case pHeapStruct, pHeapCell, pSliceElem, pArray:
+			return p.ref, true
+		}
+	}
+	return "", false
+}
+
+func (e *specEnv) lvalueSafe(x Expr) (p *Ptr) {
+	defer func() {
+		if r := recover(); r != nil {
+			if _, is := r.(specErr); is {
+				p = nil
+				return
+			}
+			if _, is := r.(unsupported); is {
+				p = nil
+				return
+			}
+			panic(r)
+		}
+	}()
+	return e.lvalue(x)
+}
+
 // keyOfLValue maps a modifies expression to its heap key.
 func (e *specEnv) keyOfLValue(x Expr) (key string, ok bool) {
 	defer func() {
